@@ -6,7 +6,7 @@
     opnorm   {A, v0, maxiter}          -> c | err value            operator_norm: power iteration on v ↦ Aᵀ(A v), sqrt
     pdhg     {c, ratio, factor|null}   -> [tau, sigma]
     padmm    {cA, cB, factor|null}     -> [mu, nu]
-    diagnorm {ord, d} | {ord, re, im}  -> value | err value        Diagonal.norm (real / complex diagonal)
+    diagnorm {ord, d[, square]} | {ord, re, im} -> value | err value|shape   Diagonal.norm (real / complex diagonal)
     sidnorm  {ord, ac, N}              -> value | err value        ScaledIdentity.norm
     matnorm  {ord, rows}               -> value | null             entrywise matrix norms (spec of the closed forms)
   ord is a string "none|fro|nuc|inf|-inf|other" or an integer.
@@ -76,7 +76,10 @@ def handler : Handler := fun op j =>
   | "diagnorm" => do
     let o ← ord? j
     match fFloats? j "d" with
-    | some d => some (exceptJ (diagNorm o d))
+    | some d =>
+      match fBool? j "square" with
+      | some sq => some (exceptJ (diagNormShaped sq o d))
+      | none => some (exceptJ (diagNorm o d))
     | none =>
       let re ← fFloats? j "re"
       let im ← fFloats? j "im"
